@@ -17,12 +17,17 @@ nfix = sum(1 for f in kf if f['status']=='fixed'); nopen = sum(1 for f in kf if 
 out.append(f"\n{nfix} repaired, {nopen} recorded as known findings.\n")
 out.append("### 9.4 Independently seeded changes (generated from seeded/*/meta.json)\n")
 out.append("Each change was written by a fresh sub-agent that saw only the property text and its own worktree, confirmed by the coordinator in a scratch worktree (patch applies, builds, repository suite unchanged, demonstration fails with / passes without), then run against the quick tier with `VERIF_REPO`.\n")
-out.append("| seeded change | breaks | needs | caught by (quick tier) |")
-out.append("|---|---|---|---|")
+out.append("| seeded change | breaks | needs | caught by (quick tier) | final re-check |")
+out.append("|---|---|---|---|---|")
 for m in sorted(glob.glob(os.path.join(ROOT, "seeded", "*", "meta.json"))):
     d = json.load(open(m))
     needs = d.get('needs','').replace('|','/'); caught = d.get('caught_by','').replace('|','/')
-    out.append(f"| seeded/{os.path.basename(os.path.dirname(m))} | {d.get('property','')} | {needs} | {caught} |")
+    rc = os.path.join(os.path.dirname(m), "recheck.txt")
+    re_ = ""
+    if os.path.exists(rc):
+        w = open(rc).read().split()
+        re_ = (w[1].lower() + " @" + w[3].replace("head=", "")) if len(w) > 3 else ""
+    out.append(f"| seeded/{os.path.basename(os.path.dirname(m))} | {d.get('property','')} | {needs} | {caught} | {re_} |")
 text = "\n".join(out) + "\n"
 p = os.path.join(ROOT, "DESIGN.md")
 s = open(p).read()
